@@ -74,6 +74,7 @@ LEVEL = "exploration"
 TECHNIQUE = ("deterministic simulation: real H2Connection/H2Stream/Request against a tape-driven h2 client over a segmenting "
              "simulated link; window ledger recomputed from the frame log + h2 client as referee")
 QUICK_RUNS = 6000
+TWIN_P = 0.08   # this share of the runs drives two independent instances of the scenario one after the other (detsim.runner._run_scenario)
 BATCH = 40
 COMPONENTS = {
     "real": ["twisted.web._http2.H2Connection", "twisted.web._http2.H2Stream", "twisted.web.http.Request (write/finish/registerProducer)",
